@@ -13,7 +13,7 @@ RULE = ("Streams of exact numbers (ints, rationals, floats lifted exactly) of le
         "through the shipped WelfordTracker.update / ExponentialSmoothingTracker.update as ixv.exact.Q values, so "
         "mean/var/get() are exact rationals and are compared with == against closed forms (arithmetic mean, population "
         "variance, sum alpha(1-alpha)^(n-i) v_i) after EVERY update (in some cases the tracker is deep- or shallow-copied mid-stream: the copy carries on, the original must stay); plus N, std, linearity T(a*u+b*w)=a*T(u)+b*T(w), "
-        "min<=mean<=max, smoothed value in the convex hull of {0} and the inputs; a float/NumPy-scalar twin (float64/32, signed and UNSIGNED integer scalars, and values handed over in one reused 0-d array buffer) is compared "
+        "min<=mean<=max, smoothed value in the convex hull of {0} and the inputs; a float/NumPy-scalar twin (float64/32, signed and UNSIGNED integer scalars, decimal.Decimal streams with a Decimal alpha, and values handed over in one reused 0-d array buffer) is compared "
         "within a rounding tolerance. Non-trivial: >=3 distinct values, non-monotone, mixed sign (and alpha not in {0,1} "
         "for smoothing); distinct by SHA-256 of the canonical case JSON.")
 ASSUMPTIONS = ["fractions.Fraction arithmetic is exact", "evidence by search, not the inductive proof the property text mentions"]
@@ -171,7 +171,9 @@ _NP = {'f64': np.float64, 'f32': np.float32, 'i64': np.int64, 'i32': np.int32, '
        'u8': lambda v: np.uint8(abs(v) % 256), 'u16': lambda v: np.uint16(abs(v) % 65536), 'u64': lambda v: np.uint64(abs(v)),
        # ... and 'buf': every value arrives in ONE reused 0-d float64 array (the out= buffer of a reduction): the value counts as it
        # was when it was supplied
-       'buf': float}
+       'buf': float,
+       # decimal.Decimal streams (with a Decimal alpha for the smoothing tracker): numbers that do not mix with floats
+       'decimal': lambda v: __import__('decimal').Decimal(int(v))}
 
 
 def run_numpy(case):
@@ -179,15 +181,21 @@ def run_numpy(case):
     from ixai.utils.tracker import WelfordTracker, ExponentialSmoothingTracker
     conv = _NP[case['dtype']]
     raw = case['values']
-    if case['dtype'] in ('i64', 'i32', 'pyint', 'u8', 'u16', 'u64'):
+    if case['dtype'] in ('i64', 'i32', 'pyint', 'u8', 'u16', 'u64', 'decimal'):
         xs = [conv(int(v)) for v in raw]
     else:
         xs = [conv(v) for v in raw]
     exact = [Q(float(x)) if not isinstance(x, (int, np.integer)) else Q(int(x)) for x in xs]
     alpha = case['alpha']
+    if case['dtype'] == 'decimal':
+        import decimal
+        exact = [Q(int(x)) for x in xs]
+        case = dict(case, alpha_type='decimal')
     # alpha arrives as a Python float, a NumPy float (np.linspace sweeps, 1/np.sqrt(n)) or - at the boundaries - as the int 0 / 1
     akind = case.get('alpha_type', 'float')
     a_arg = np.float64(alpha) if akind == 'f64' else (int(alpha) if akind == 'int' and alpha in (0.0, 1.0) else alpha)
+    if akind == 'decimal':
+        a_arg = decimal.Decimal(repr(alpha))       # 0.5 -> Decimal('0.5'): the exact value differs from the binary float by < 1e-17
     try:
         w, e = WelfordTracker(), ExponentialSmoothingTracker(alpha=a_arg)
     except Exception as ex:
@@ -199,7 +207,12 @@ def run_numpy(case):
         if case['dtype'] == 'buf':
             buf[...] = x
             x = buf
-        w.update(x), e.update(x)
+        try:
+            w.update(x), e.update(x)
+            _ = (w.mean, w.var, e.get())
+        except Exception as ex:
+            return Result(False, key=f'C10:numpy:exception:{type(ex).__name__}',
+                          detail=f'update {len(seen) + 1} with a {type(x).__name__} value ({case["dtype"]}) raised {ex!r}')
         seen.append(q)
         n = len(seen)
         scale = max(abs(float(v)) for v in seen) + 1e-300
